@@ -275,6 +275,12 @@ impl Recorder {
         for (k, v) in &i.extra {
             coverage.insert(k.clone(), v.clone());
         }
+        if let Ok(c) = std::env::var("VERIF_COMMIT") {
+            coverage.insert("verif_commit".into(), json!(c));
+        }
+        if let Ok(c) = std::env::var("VERIF_REPO_COMMIT") {
+            coverage.insert("repo_commit".into(), json!(c));
+        }
         let seed: i64 = std::env::var("VERIF_SEED").ok().and_then(|s| s.parse().ok()).unwrap_or(0);
         let ev = json!({
             "property_id": self.property,
